@@ -179,6 +179,9 @@ def T.applyPost (t : T) (k : Nat) (r : Option PA) : T :=
       -- a source removed from inside its own callback is unregistered once its processing ends
       if gone && nsub > 0 then { t with expectRegs := some (k, subs.map fun j => (.unregister, j)) } else t
     | .Reregister =>
+      -- (a source that is not enabled gets events only if its unregistration had failed; a re-registration that then
+      -- succeeds lists it again, like a successful `update`: whether it has hooks is not judged until it is disabled again)
+      let t := t.modSrc k fun a => { a with lifeMaybe := a.lifeMaybe || a.status != .enabled }
       let t := t.modSrc k fun a => { a with touched := true, dirty := false, rr := a.ir, rw := a.iw, rmode := a.mode, disarmed := false,
                                             armed := (if a.kind == .timer && a.status == .enabled then a.deadline.isSome else a.armed),
                                             armedInDisp := if a.kind == .timer && a.status == .enabled then t.inDispatch else a.armedInDisp }
